@@ -700,4 +700,20 @@ MUTANTS = [
            "        except TimeoutExpired:\n            self.cancel()\n",
            "        except TimeoutExpired:\n",
            "R2.cleanup-all-exits", "LocalApp.join"),
+    Mutant("gate-warns-only", "application/application.py",
+           "                raise AppStateError(\n                    f\"The application is in {instance.get_app_state()} state, \"\n                    f\"but {app_state} state is required\"\n                )\n",
+           "                print(\n                    f\"The application is in {instance.get_app_state()} state, \"\n                    f\"but {app_state} state is required\"\n                )\n",
+           "R1.gate-dominates", "requires_state.decorator.wrapper"),
+    Mutant("gate-call-in-try-before-test", "application/application.py",
+           "                instance = args[0]\n            except IndexError:",
+           "                instance = args[0]\n                func(*args, **kwargs)\n            except IndexError:",
+           "R1.gate-dominates", "requires_state.decorator.wrapper"),
+    Mutant("running-before-run", "application/application.py",
+           "        self.run()\n        self._start_time = time.time()\n        self._state = AppState.RUNNING\n",
+           "        self._state = AppState.RUNNING\n        self.run()\n        self._start_time = time.time()\n",
+           "R1.running-after-run", "Application.start"),
+    Mutant("running-when-run-skipped", "application/application.py",
+           "        self.run()\n        self._start_time = time.time()\n",
+           "        if self._start_time is None:\n            self.run()\n        self._start_time = time.time()\n",
+           "R1.running-after-run", "Application.start"),
 ]
